@@ -96,6 +96,7 @@ type scriptPD struct {
 	assignAtEntry bool            // gated calls receive their value when they arrive (else at release)
 	pend          []*pending
 	calls         int
+	ctxAborts     int // gated requests abandoned because the caller's context was done
 	exhausted     int
 }
 
@@ -113,6 +114,9 @@ func (c *scriptPD) nextLocked() pdres {
 }
 func (c *scriptPD) WithCallerComponent(caller.Component) pd.Client { return c }
 func (c *scriptPD) GetTS(ctx context.Context) (int64, int64, error) {
+	if err := ctx.Err(); err != nil {
+		return 0, 0, err
+	}
 	c.mu.Lock()
 	c.calls++
 	if !c.gated {
@@ -129,7 +133,26 @@ func (c *scriptPD) GetTS(ctx context.Context) (int64, int64, error) {
 	}
 	c.pend = append(c.pend, pc)
 	c.mu.Unlock()
-	<-pc.ch
+	// like the real client, a gated request is abandoned when the caller's context is done
+	select {
+	case <-pc.ch:
+	case <-ctx.Done():
+		c.mu.Lock()
+		abandoned := false
+		for k, x := range c.pend {
+			if x == pc {
+				c.pend = append(c.pend[:k], c.pend[k+1:]...)
+				abandoned = true
+				break
+			}
+		}
+		c.ctxAborts++
+		c.mu.Unlock()
+		if abandoned {
+			return 0, 0, ctx.Err()
+		}
+		<-pc.ch // released concurrently: the answer is there
+	}
 	if pc.r.err {
 		return 0, 0, errPD
 	}
@@ -155,9 +178,15 @@ func (c *scriptPD) release(fail bool) bool {
 	return true
 }
 
-type scriptFut struct{ r pdres }
+type scriptFut struct {
+	r   pdres
+	ctx context.Context
+}
 
 func (f *scriptFut) Wait() (int64, int64, error) {
+	if err := f.ctx.Err(); err != nil {
+		return 0, 0, err
+	}
 	if f.r.err {
 		return 0, 0, errPD
 	}
@@ -167,7 +196,7 @@ func (c *scriptPD) GetTSAsync(ctx context.Context) tso.TSFuture {
 	c.mu.Lock()
 	defer c.mu.Unlock()
 	c.calls++
-	return &scriptFut{c.nextLocked()}
+	return &scriptFut{c.nextLocked(), ctx}
 }
 
 // ---------------------------------------------------------------- helpers
@@ -391,21 +420,22 @@ func (c *sfCase) state() []string {
 	}
 	lr, err := c.o.GetLowResolutionTimestamp(context.Background(), &oracle.Option{TxnScope: "global"})
 	c.pdc.mu.Lock()
-	k := c.k
+	k, aborts := c.k, c.pdc.ctxAborts
 	c.pdc.mu.Unlock()
-	return []string{strings.Join(r, ";"), tsres(lr, err), strconv.FormatInt(k, 10)}
+	// 4th field: PD requests abandoned because the context they were issued under was cancelled
+	return []string{strings.Join(r, ";"), tsres(lr, err), strconv.FormatInt(k, 10), strconv.Itoa(aborts)}
 }
 func execSf(f []string) {
 	op := f[1]
 	if sfBroken && op != "begin" {
-		emit("sf", op, "=>", "timeout", "-", "0")
+		emit("sf", op, "=>", "timeout", "-", "0", "0")
 		return
 	}
 	fin := func(in ...string) {
 		ok := sf.quiesce()
 		st := sf.state()
 		if !ok {
-			st = []string{"timeout", "-", "0"}
+			st = []string{"timeout", "-", "0", "0"}
 			sfBroken = true
 		}
 		emit(append(append(append([]string{"sf"}, in...), "=>"), st...)...)
